@@ -48,7 +48,9 @@ def insert_quant(
   # create output tensor for the quantize op
   tensor = transformation_input.subgraph.tensors[transformation_input.tensor_id]
   new_tensor_id = transformation_utils.add_new_activation_tensor(
-      tensor.name + b'_quantized',
+      transformation_utils.get_unique_tensor_name(
+          tensor.name + b'_quantized', transformation_input.subgraph
+      ),
       tensor.shape,
       schema_py_generated.TensorType.FLOAT32,
       transformation_input.subgraph,
